@@ -118,7 +118,7 @@ func (res *Result) GetLiteralResult() (string, error) {
 	return res.value.Literal("GetLiteralResult"), nil
 }
 
-func (res *Result) GetNodeSetResult() ([]xutils.XpathNode, error) {
+func (res *Result) GetNodeSetResult() (ns []xutils.XpathNode, err error) {
 	if res.runErr != nil {
 		return []xutils.XpathNode{}, res.runErr
 	}
@@ -127,6 +127,13 @@ func (res *Result) GetNodeSetResult() ([]xutils.XpathNode, error) {
 		return nil, fmt.Errorf("No result to return for nodeset.")
 	}
 
+	// A number, string or boolean cannot be converted to a nodeset: that
+	// is an error to return, like the others of this function
+	defer func() {
+		if r := recover(); r != nil {
+			ns, err = nil, fmt.Errorf("%v", r)
+		}
+	}()
 	return res.value.Nodeset("GetNodesetResult"), nil
 }
 
